@@ -266,6 +266,5 @@ theorem defrag_inv (d : DB) (h : Cached d) (hv : d.volatile = false) (hwf : Inde
     obtain ⟨x, hx, rfl⟩ := List.mem_map.mp hkr
     obtain ⟨h1, h2⟩ := hreads x hx
     exact ⟨_, valOf x.2, by show dlookup x.2.seq _ = _; rw [h1]; exact d6, h2⟩
-  · rw [m1]; intro h'; cases h'
 
 end GocoinV.Proofs.C19
